@@ -672,3 +672,54 @@ B('c07-slice-comprehension', 'C07', AST, _SL,
   "        bounds = [part.eval(state) for part in (self.start, self.stop, self.step)]\n        return slice(*(None if b is None else int(b) for b in bounds))")
 B('c07-slice-explicit-none-tests', 'C07', AST, _SL,
   "        a = self.start.eval(state)\n        b = self.stop.eval(state)\n        c = self.step.eval(state)\n        if a is not None:\n            a = int(a)\n        if b is not None:\n            b = int(b)\n        if c is not None:\n            c = int(c)\n        return slice(a, b, c)")
+
+# ---- round 2 of independently written changes
+P('C01-C', 'C01', 'C01.R7'); P('C01-D', 'C01', 'C01.R4')
+P('C02-C', 'C02', 'C02.R3'); P('C02-D', 'C02', 'C02.R4')
+P('C09-C', 'C09', 'C09.R2'); P('C09-D', 'C09', 'C09.R3')
+P('C10-C', 'C10', 'C10.R2'); P('C10-D', 'C10', 'C10.R1')
+P('C12-D', 'C12', 'C12.R1')
+P('C17-C', 'C17', 'C17.R5'); P('C17-D', 'C17', 'C17.R1')
+_RED = "def _reduce(container: Any, f: Callable) -> Any:\n    if isinstance(container, Iterable):\n        return functools.reduce(f, container)\n"
+B('c02-reduce-sentinel-handled', ['C02', 'C13', 'C03'], edits=[
+  (FUN, "CAST_DICT_KEYS_TO_STRINGS = True", "_NOT_GIVEN: Any = object()\nCAST_DICT_KEYS_TO_STRINGS = True"),
+  (FUN, _RED, "def _reduce(container: Any, f: Callable, initial: Any = _NOT_GIVEN) -> Any:\n    if isinstance(container, Iterable):\n        if initial is _NOT_GIVEN:\n            return functools.reduce(f, container)\n        return functools.reduce(f, container, initial)\n")])
+M('c02-reduce-sentinel-returned', 'C02', 'C02.R3', edits=[
+  (FUN, "CAST_DICT_KEYS_TO_STRINGS = True", "_NOT_GIVEN: Any = object()\nCAST_DICT_KEYS_TO_STRINGS = True"),
+  (FUN, _RED, "def _reduce(container: Any, f: Callable, initial: Any = _NOT_GIVEN) -> Any:\n    if isinstance(container, Iterable):\n        return functools.reduce(f, container, initial)\n")])
+M('c02-get-default-module-object', 'C02', 'C02.R3', edits=[
+  (FUN, "CAST_DICT_KEYS_TO_STRINGS = True", "_MISSING: Any = object()\nCAST_DICT_KEYS_TO_STRINGS = True"),
+  (FUN, "def keys(value: Any) -> list:\n    return list(value.keys())", "def keys(value: Any) -> list:\n    return [value.get('keys', _MISSING)] + list(value.keys())")])
+
+P('C12-C', 'C12', 'C12.R1'); P('C13-C', 'C13', 'C13.R3'); P('C13-D', 'C13', 'C13.R1')
+M('c12-deepcopy-seeded-memo', 'C12', 'C12.R1', AST, "        state.names[self.name] = copy.deepcopy(value)\n        return None",
+  "        state.names[self.name] = copy.deepcopy(value, {id(value): value})\n        return None")
+B('c12-deepcopy-empty-memo', 'C12', AST, "        state.names[self.name] = copy.deepcopy(value)\n        return None",
+  "        state.names[self.name] = copy.deepcopy(value, {})\n        return None")
+M('c13-binop-extends-left', 'C13', 'C13.R3', AST, "            return op1 + op2\n        elif self.op == '-':",
+  "            if isinstance(op1, list):\n                op1 += op2\n                return op1\n            return op1 + op2\n        elif self.op == '-':")
+M('c13-nameop-sorts-in-place', 'C13', 'C13.R3', AST, "            raise ParserError(f'Undefined variable {self.name}')\n\n        return value",
+  "            raise ParserError(f'Undefined variable {self.name}')\n\n        if isinstance(value, list):\n            value.reverse()\n            value.reverse()\n        return value")
+M('c13-sorted-elements-touched', 'C13', 'C13.R1', FUN, "def keys(value: Any) -> list:\n    return list(value.keys())",
+  "def keys(value: Any) -> list:\n    for v in list(value.values()):\n        if isinstance(v, list):\n            v.append(None)\n            v.pop()\n    return list(value.keys())")
+B('c13-copy-then-mutate', 'C13', FUN, "def keys(value: Any) -> list:\n    return list(value.keys())",
+  "def keys(value: Any) -> list:\n    out = list(value.keys())\n    out.reverse()\n    out.reverse()\n    return out")
+
+EXC = 'smartquery/exceptions.py'
+P('C16-C', 'C16', 'C16.R8')
+M('c02-exception-ctor-logs-to-file', 'C02', 'C02.R4', EXC, "class ParserError(Exception):\n    pass",
+  "class ParserError(Exception):\n    def __init__(self, *args):\n        super().__init__(*args)\n        with open('/tmp/smartquery-errors.log', 'a') as f:\n            f.write(repr(args))")
+M('c16-exception-ctor-percent-template', 'C16', 'C16.R8', EXC, "class ParserError(Exception):\n    pass",
+  "class ParserError(Exception):\n    def __init__(self, message='', *args):\n        super().__init__(message % args if args else message)")
+M('c16-exception-str-strict-encode', 'C16', 'C16.R8', EXC, "class ParserError(Exception):\n    pass",
+  "class ParserError(Exception):\n    def __str__(self):\n        return super().__str__().encode('ascii').decode('ascii')")
+B('c16-exception-ctor-stores-fields', ['C16', 'C01', 'C03', 'C20', 'C02', 'C07'], EXC, "class ParserError(Exception):\n    pass",
+  "class ParserError(Exception):\n    def __init__(self, message='', *args):\n        super().__init__(message, *args)\n        self.message = message")
+CORPUS.append({'id': 'S/R5-1-silent', 'props': ['C01', 'C02', 'C03', 'C07', 'C16', 'C20'], 'rule': None, 'expect': 'silent',
+               'edits': [], 'patch': 'seeded_benign/R5-1/patch.diff'})
+
+P('C16-D', 'C16', 'C16.R2')
+B('c16-hook-attr-created-in-init', ['C16'], edits=[
+  (LEX, "    raise ParserError(f'Illegal character {t.value[0]}')", "    raise ParserError(f'Illegal character {t.value[0]} (depth {t.lexer.depth_hint})')"),
+  (SQP, "        self.parse_cache = parse_cache\n", "        self.parse_cache = parse_cache\n        self._late = True\n"),
+  (SQP, "            outputdir=output_dir)\n\n        self.yacc", "            outputdir=output_dir)\n        self.lex.depth_hint = 0\n\n        self.yacc")])
